@@ -103,7 +103,7 @@ Proof.
     destruct (run_action _ _ _ _ _); cbn [step_state out_state] in *; exact H.
   - destruct inp as [|c rest].
     + unfold run_eof. destruct (eof_action_of (l_sc s)) as [[| | |k]|]; cbn [step_state]; try reflexivity.
-      destruct (l_inc s) as [|f r]; [reflexivity|].
+      destruct (l_rderr s); [reflexivity|]. destruct (l_inc s) as [|f r]; [reflexivity|].
       destruct (match cur_buf_id s with Some id0 => Nat.eqb id0 (i_buf f) | None => false end); reflexivity.
     + exfalso. destruct (munch_covered (l_sc s) c rest) as [b Hb']. congruence.
 Qed.
@@ -137,7 +137,7 @@ Proof.
     rewrite skipn_length. lia.
   - destruct inp as [|c rest].
     + unfold run_eof. destruct (eof_action_of (l_sc s)) as [[| | |k']|]; try discriminate.
-      destruct (l_inc s) as [|f r]; [discriminate|].
+      destruct (l_rderr s); [discriminate|]. destruct (l_inc s) as [|f r]; [discriminate|].
       destruct (match cur_buf_id s with Some id0 => Nat.eqb id0 (i_buf f) | None => false end); [|discriminate].
       intros H; inversion H; subst. cbn. rewrite Hb. cbn [tl fold_left snd length].
       rewrite (fold_measure_shift others 1). lia.
@@ -173,7 +173,7 @@ Proof.
     destruct (run_action _ _ _ _ _); exact H'.
   - destruct inp as [|c rest]; [|exact H].
     unfold run_eof. destruct (eof_action_of (l_sc s)) as [[| | |k]|]; cbn [step_state]; try exact H.
-    destruct (l_inc s) as [|f r]; [exact H|].
+    destruct (l_rderr s); [exact H|]. destruct (l_inc s) as [|f r]; [exact H|].
     destruct (match cur_buf_id s with Some id0 => Nat.eqb id0 (i_buf f) | None => false end); cbn [step_state]; [apply q_inv_empty|exact H].
 Qed.
 
